@@ -67,7 +67,8 @@ Definition allow : list (string * string * site_kind * Z * string * discharge) :
 Definition kind_eqb (a b : site_kind) : bool :=
   match a, b with
   | K_maprange, K_maprange | K_mapkeys, K_mapkeys | K_float, K_float | K_floatfmt, K_floatfmt
-  | K_timenow, K_timenow | K_rand, K_rand | K_goroutine, K_goroutine | K_select, K_select | K_state, K_state => true
+  | K_timenow, K_timenow | K_rand, K_rand | K_goroutine, K_goroutine | K_select, K_select | K_state, K_state
+  | K_stack, K_stack | K_ptrfmt, K_ptrfmt => true
   | _, _ => false
   end.
 
